@@ -503,6 +503,10 @@ type pipeCase struct {
 	NetMode string `json:"netmode"` // default | eni | ann-comma | ann-json
 	NNets   int    `json:"nnets"`
 	ReqArgs string `json:"reqargs"` // kubelet | kubelet-ws | with-stale-ipinfos
+	// Reload: after every pod has been bound and checked once, the floatingip configuration is reloaded in the same
+	// process (same ranges; vlan / gateway / subnet mask of these pools changed), the pods are bound AGAIN (their ips
+	// are reused) and the whole pipeline is checked against the pools of the configuration now in force.
+	Reload []poolSpec `json:"reload,omitempty"`
 }
 
 func ipStr(n uint32) string { return ax.U32ToIP(n).String() }
@@ -651,6 +655,35 @@ func genPipe(rng *rand.Rand, boundary bool) *pipeCase {
 		pc.NNets = 1
 	}
 	pc.ReqArgs = []string{"kubelet", "kubelet", "kubelet-ws", "with-stale-ipinfos"}[rng.Intn(4)]
+	// reload with changed parameters of one or more pools (same ranges)
+	if rng.Intn(5) < 2 {
+		changed := false
+		for _, p := range pc.Pools {
+			q := p
+			q.Ranges = append([][2]uint32(nil), p.Ranges...)
+			if rng.Intn(3) != 0 {
+				if rng.Intn(2) == 0 {
+					q.Vlan = (p.Vlan + 1 + rng.Intn(4000)) % 4095
+				}
+				if rng.Intn(2) == 0 && p.Plen > 8 {
+					// a wider subnet still holds the ranges and the gateway and stays inside the pool's own /8
+					q.Plen = p.Plen - 1 - rng.Intn(minInt(4, p.Plen-8))
+					q.Base = p.Base &^ uint32((uint64(1)<<uint(32-q.Plen))-1)
+				}
+				if rng.Intn(2) == 0 {
+					size := uint64(1) << uint(32-q.Plen)
+					q.GW = q.Base + uint32(uint64(rng.Int63())%size)
+				}
+				if q.Vlan != p.Vlan || q.Plen != p.Plen || q.GW != p.GW {
+					changed = true
+				}
+			}
+			pc.Reload = append(pc.Reload, q)
+		}
+		if !changed {
+			pc.Reload[0].Vlan = (pc.Reload[0].Vlan + 7) % 4095
+		}
+	}
 	return pc
 }
 
@@ -745,311 +778,341 @@ func (v *env) runPipe(line string) {
 		return
 	}
 
-	for pi, pod := range pods {
-		ps := pc.Pods[pi]
-		podLine := fmt.Sprintf("%s #pod=%d", line, pi)
-		// the ips the pod already holds when it is bound
-		preOK := true
-		if len(ps.Pre) > 0 {
-			kobj, _ := pluginutil.FormatKey(pod)
-			isPre := map[int]bool{}
-			for _, j := range ps.Pre {
-				isPre[j] = true
-				if j < 0 || j >= len(ps.Req) || len(ps.Req[j]) == 0 {
-					preOK = false
-					continue
-				}
-				var aerr error
-				o := hx.Guard(30*time.Second, func() {
-					aerr = plugin.GetIpam().AllocateSpecificIP(kobj.KeyInDB, ax.U32ToIP(ps.Req[j][0][0]),
-						floatingip.Attr{Policy: constant.ReleasePolicyImmutable, NodeName: nodeName, Uid: string(pod.UID)})
-				})
-				if o != "ok" || aerr != nil {
-					preOK = false
-				}
+	phases := 1
+	if len(pc.Reload) == len(pc.Pools) && len(pc.Reload) > 0 {
+		phases = 2
+	}
+	sfx := ""
+	for phase := 0; phase < phases; phase++ {
+		if phase == 1 {
+			// reload through the real decoder + ConfigurePool, as ensureIPAMConf does on a configmap change
+			pc.Pools = pc.Reload
+			var nconf schedulerplugin.Conf
+			if err := json.Unmarshal([]byte(pc.confJSON()), &nconf); err != nil {
+				v.r.Hit("pipe:reload-conf-rejected")
+				v.r.Extra["reload-conf-rejected-example"] = err.Error() + " :: " + pc.confJSON()
+				break
 			}
-			held := "earlier-only"
-			for _, j := range ps.Pre {
-				for q := 0; q < j; q++ {
-					if !isPre[q] {
-						held = "later-but-not-earlier"
+			var rerr error
+			o := hx.Guard(60*time.Second, func() { rerr = plugin.GetIpam().ConfigurePool(nconf.FloatingIPs) })
+			if o != "ok" || rerr != nil {
+				v.r.Hit("pipe:reload-failed")
+				v.r.Extra["reload-failed-example"] = fmt.Sprintf("%s %v :: %s", o, rerr, pc.confJSON())
+				break
+			}
+			v.r.Hit("pipe:reload")
+			sfx = ":after-reload"
+		}
+		for pi, pod := range pods {
+			ps := pc.Pods[pi]
+			if phase == 1 {
+				ps.Pre = nil // the pod holds all its ips now
+				v.r.Hit("pipe:rebind-after-reload")
+			}
+			podLine := fmt.Sprintf("%s #pod=%d", line, pi)
+			// the ips the pod already holds when it is bound
+			preOK := true
+			if len(ps.Pre) > 0 {
+				kobj, _ := pluginutil.FormatKey(pod)
+				isPre := map[int]bool{}
+				for _, j := range ps.Pre {
+					isPre[j] = true
+					if j < 0 || j >= len(ps.Req) || len(ps.Req[j]) == 0 {
+						preOK = false
+						continue
+					}
+					var aerr error
+					o := hx.Guard(30*time.Second, func() {
+						aerr = plugin.GetIpam().AllocateSpecificIP(kobj.KeyInDB, ax.U32ToIP(ps.Req[j][0][0]),
+							floatingip.Attr{Policy: constant.ReleasePolicyImmutable, NodeName: nodeName, Uid: string(pod.UID)})
+					})
+					if o != "ok" || aerr != nil {
+						preOK = false
 					}
 				}
-			}
-			v.r.Hit("pipe:pre-owned:" + held)
-			shapes := map[int]bool{}
-			for j := range ps.Req {
-				if p := pc.poolOf(ps.Req[j][0][0]); p != nil {
-					shapes[p.Plen*100000+p.Vlan] = true
-				}
-			}
-			if len(shapes) > 1 {
-				v.r.Hit("pipe:pre-owned:ranges-in-pools-of-different-mask-or-vlan")
-			}
-		}
-		if !preOK {
-			v.r.Hit("pipe:pre-allocation-failed")
-			continue
-		}
-		var bindErr error
-		out := hx.Guard(60*time.Second, func() {
-			bindErr = plugin.Bind(&schedulerapi.ExtenderBindingArgs{PodName: pod.Name, PodNamespace: pod.Namespace, PodUID: pod.UID, Node: nodeName})
-		})
-		if out != "ok" {
-			v.violation("bind-"+strings.SplitN(out, ":", 2)[0], "Bind "+out, line)
-			continue
-		}
-		if bindErr != nil {
-			v.r.Hit("pipe:bind-error")
-			if _, ok := v.r.Extra["bind-error-example"]; !ok {
-				v.r.Extra["bind-error-example"] = bindErr.Error()
-			}
-			continue
-		}
-		annots := rec[pod.Name]
-		annotation := annots[constant.ExtendedCNIArgsAnnotation]
-
-		// ---- truth: the FloatingIP objects persisted for this pod + the generated pool they lie in
-		keyObj, _ := pluginutil.FormatKey(pod)
-		fips, err := ctx.GalaxyClient.GalaxyV1alpha1().FloatingIPs().List(context.TODO(), metav1.ListOptions{})
-		if err != nil {
-			v.r.Hit("pipe:list-error")
-			continue
-		}
-		var mine []uint32
-		for _, f := range fips.Items {
-			if f.Spec.Key == keyObj.KeyInDB {
-				if n, ok := ax.IPToU32(net.ParseIP(f.Name)); ok {
-					mine = append(mine, n)
-				}
-			}
-		}
-		var truth []ax.Rec
-		orderKnown := true
-		if len(ps.Req) > 0 {
-			// the i-th IP is the one persisted inside the i-th requested range list (lists are disjoint)
-			for _, rs := range ps.Req {
-				found := false
-				for _, ip := range mine {
-					for _, r := range rs {
-						if r[0] <= ip && ip <= r[1] && !found {
-							if p := pc.poolOf(ip); p != nil {
-								truth = append(truth, ax.Rec{IP: ip, Plen: p.Plen, Vlan: p.Vlan, GW: p.GW})
-								found = true
-							}
+				held := "earlier-only"
+				for _, j := range ps.Pre {
+					for q := 0; q < j; q++ {
+						if !isPre[q] {
+							held = "later-but-not-earlier"
 						}
 					}
 				}
-				if !found {
-					orderKnown = false
+				v.r.Hit("pipe:pre-owned:" + held)
+				shapes := map[int]bool{}
+				for j := range ps.Req {
+					if p := pc.poolOf(ps.Req[j][0][0]); p != nil {
+						shapes[p.Plen*100000+p.Vlan] = true
+					}
+				}
+				if len(shapes) > 1 {
+					v.r.Hit("pipe:pre-owned:ranges-in-pools-of-different-mask-or-vlan")
 				}
 			}
-		} else {
-			for _, ip := range mine {
-				if p := pc.poolOf(ip); p != nil {
-					truth = append(truth, ax.Rec{IP: ip, Plen: p.Plen, Vlan: p.Vlan, GW: p.GW})
+			if !preOK {
+				v.r.Hit("pipe:pre-allocation-failed")
+				continue
+			}
+			var bindErr error
+			out := hx.Guard(60*time.Second, func() {
+				bindErr = plugin.Bind(&schedulerapi.ExtenderBindingArgs{PodName: pod.Name, PodNamespace: pod.Namespace, PodUID: pod.UID, Node: nodeName})
+			})
+			if out != "ok" {
+				v.violation("bind-"+strings.SplitN(out, ":", 2)[0], "Bind "+out, line)
+				continue
+			}
+			if bindErr != nil {
+				v.r.Hit("pipe:bind-error")
+				if _, ok := v.r.Extra["bind-error-example"]; !ok {
+					v.r.Extra["bind-error-example"] = bindErr.Error()
 				}
+				continue
 			}
-		}
-		want := len(ps.Req)
-		if want == 0 {
-			want = 1
-		}
-		if !orderKnown || len(truth) != want || len(mine) != want {
-			v.violation("ipam-persisted-set-unexpected", fmt.Sprintf("pod %s requested %d IPs, %d FloatingIP objects persisted (%v), %d matched the request",
-				pod.Name, want, len(mine), mine, len(truth)), line)
-			continue
-		}
-		v.r.Hit(fmt.Sprintf("pipe:ips-per-pod=%d", len(truth)))
-		for _, t := range truth {
-			v.r.Hit(fmt.Sprintf("pipe:plen=%d", t.Plen))
-			switch {
-			case t.Vlan == 0:
-				v.r.Hit("pipe:vlan=0")
-			case t.Vlan == 4094:
-				v.r.Hit("pipe:vlan=4094")
-			case t.Vlan > 4094:
-				v.r.Hit("pipe:vlan>4094")
-			default:
-				v.r.Hit("pipe:vlan=1..4093")
-			}
-		}
-		items := ax.ItemsSpaced(truth)
+			annots := rec[pod.Name]
+			annotation := annots[constant.ExtendedCNIArgsAnnotation]
 
-		// ---- stage: toFloatingIPInfo + MarshalCniArgs (the text galaxy-ipam writes for exactly these IPs)
-		infos, err := plugin.GetIpam().ByKeyAndIPRanges(keyObj.KeyInDB, nil)
-		if err == nil && len(infos) == len(truth) {
-			byIP := map[uint32]constant.IPInfo{}
-			for _, fi := range infos {
-				if fi != nil && fi.IPInfo.IP != nil {
-					if n, ok := ax.IPToU32(fi.IPInfo.IP.IP); ok {
-						byIP[n] = fi.IPInfo
+			// ---- truth: the FloatingIP objects persisted for this pod + the generated pool they lie in
+			keyObj, _ := pluginutil.FormatKey(pod)
+			fips, err := ctx.GalaxyClient.GalaxyV1alpha1().FloatingIPs().List(context.TODO(), metav1.ListOptions{})
+			if err != nil {
+				v.r.Hit("pipe:list-error")
+				continue
+			}
+			var mine []uint32
+			for _, f := range fips.Items {
+				if f.Spec.Key == keyObj.KeyInDB {
+					if n, ok := ax.IPToU32(net.ParseIP(f.Name)); ok {
+						mine = append(mine, n)
 					}
 				}
 			}
-			var ordered []constant.IPInfo
+			var truth []ax.Rec
+			orderKnown := true
+			if len(ps.Req) > 0 {
+				// the i-th IP is the one persisted inside the i-th requested range list (lists are disjoint)
+				for _, rs := range ps.Req {
+					found := false
+					for _, ip := range mine {
+						for _, r := range rs {
+							if r[0] <= ip && ip <= r[1] && !found {
+								if p := pc.poolOf(ip); p != nil {
+									truth = append(truth, ax.Rec{IP: ip, Plen: p.Plen, Vlan: p.Vlan, GW: p.GW})
+									found = true
+								}
+							}
+						}
+					}
+					if !found {
+						orderKnown = false
+					}
+				}
+			} else {
+				for _, ip := range mine {
+					if p := pc.poolOf(ip); p != nil {
+						truth = append(truth, ax.Rec{IP: ip, Plen: p.Plen, Vlan: p.Vlan, GW: p.GW})
+					}
+				}
+			}
+			want := len(ps.Req)
+			if want == 0 {
+				want = 1
+			}
+			if !orderKnown || len(truth) != want || len(mine) != want {
+				v.violation("ipam-persisted-set-unexpected", fmt.Sprintf("pod %s requested %d IPs, %d FloatingIP objects persisted (%v), %d matched the request",
+					pod.Name, want, len(mine), mine, len(truth)), line)
+				continue
+			}
+			v.r.Hit(fmt.Sprintf("pipe:ips-per-pod=%d", len(truth)))
 			for _, t := range truth {
-				ordered = append(ordered, byIP[t.IP])
+				v.r.Hit(fmt.Sprintf("pipe:plen=%d", t.Plen))
+				switch {
+				case t.Vlan == 0:
+					v.r.Hit("pipe:vlan=0")
+				case t.Vlan == 4094:
+					v.r.Hit("pipe:vlan=4094")
+				case t.Vlan > 4094:
+					v.r.Hit("pipe:vlan>4094")
+				default:
+					v.r.Hit("pipe:vlan=1..4093")
+				}
 			}
-			if txt, err := constant.MarshalCniArgs(ordered); err == nil {
-				v.expect("annotation-text", podLine, "ann "+items, "ok "+ax.H(txt))
-			}
-		}
+			items := ax.ItemsSpaced(truth)
 
-		// ---- stage: the daemon extracts common.* from the Binding's annotation
-		gpod := pod.DeepCopy()
-		gpod.Annotations = map[string]string{constant.ExtendedCNIArgsAnnotation: annotation}
-		var ifNames []string
-		switch pc.NetMode {
-		case "ann-comma":
-			names := []string{"netb", "neta@ifx1", "ns9/netc@ifx2"}[:pc.NNets]
-			gpod.Annotations[constant.MultusCNIAnnotation] = strings.Join(names, ", ")
-		case "ann-json":
-			names := []string{`{"name":"netc"}`, `{"name":"neta","interface":"ifx1"}`, `{"name":"netb"}`}[:pc.NNets]
-			gpod.Annotations[constant.MultusCNIAnnotation] = "[" + strings.Join(names, ",") + "]"
-		}
-		common, err := galaxy.VerifParseExtendedCNIArgs(gpod)
-		if err != nil {
-			v.violation("ipinfo-lost-or-changed:annotation-unreadable", "galaxy cannot read the annotation galaxy-ipam wrote: "+err.Error()+" :: "+annotation, line)
-			continue
-		}
-		cm := map[string]string{}
-		for k, raw := range common {
-			cm[k] = string(raw)
-		}
-		v.expect("common", podLine, "common "+items, ax.MapLine(cm))
+			// ---- stage: toFloatingIPInfo + MarshalCniArgs (the text galaxy-ipam writes for exactly these IPs)
+			infos, err := plugin.GetIpam().ByKeyAndIPRanges(keyObj.KeyInDB, nil)
+			if err == nil && len(infos) == len(truth) {
+				byIP := map[uint32]constant.IPInfo{}
+				for _, fi := range infos {
+					if fi != nil && fi.IPInfo.IP != nil {
+						if n, ok := ax.IPToU32(fi.IPInfo.IP.IP); ok {
+							byIP[n] = fi.IPInfo
+						}
+					}
+				}
+				var ordered []constant.IPInfo
+				for _, t := range truth {
+					ordered = append(ordered, byIP[t.IP])
+				}
+				if txt, err := constant.MarshalCniArgs(ordered); err == nil {
+					v.expect("annotation-text", podLine, "ann "+items, "ok "+ax.H(txt))
+				}
+			}
 
-		// ---- stage: request from kubelet through the real request decoder
-		cid := v.newCID()
-		reqArgs := fmt.Sprintf("IgnoreUnknown=1;K8S_POD_NAMESPACE=%s;K8S_POD_NAME=%s;K8S_POD_INFRA_CONTAINER_ID=%s", pod.Namespace, pod.Name, cid)
-		switch pc.ReqArgs {
-		case "kubelet-ws":
-			reqArgs = fmt.Sprintf("IgnoreUnknown = 1; K8S_POD_NAMESPACE=%s ;K8S_POD_NAME= %s;;K8S_POD_INFRA_CONTAINER_ID=%s;", pod.Namespace, pod.Name, cid)
-		case "with-stale-ipinfos":
-			reqArgs += `;ipinfos=[{"ip":"1.2.3.4/5","vlan":6,"gateway":"7.8.9.10"}]`
-		}
-		body, _ := json.Marshal(galaxyapi.CNIRequest{Env: map[string]string{"CNI_COMMAND": "ADD", "CNI_CONTAINERID": cid,
-			"CNI_NETNS": "/proc/self/ns/net", "CNI_IFNAME": "eth0", "CNI_PATH": v.binDir, "CNI_ARGS": reqArgs}, Config: []byte("{}")})
-		req, err := galaxyapi.CniRequestToPodRequest(body)
-		if err != nil {
-			v.r.Hit("pipe:request-rejected")
-			continue
-		}
-		var nis []*cniutil.NetworkInfo
-		var rerr, aerr error
-		out = hx.Guard(60*time.Second, func() {
-			nis, rerr = g.VerifResolveNetworks(req, gpod)
-			if rerr == nil {
-				_, aerr = g.VerifCmdAdd(req, gpod)
+			// ---- stage: the daemon extracts common.* from the Binding's annotation
+			gpod := pod.DeepCopy()
+			gpod.Annotations = map[string]string{constant.ExtendedCNIArgsAnnotation: annotation}
+			var ifNames []string
+			switch pc.NetMode {
+			case "ann-comma":
+				names := []string{"netb", "neta@ifx1", "ns9/netc@ifx2"}[:pc.NNets]
+				gpod.Annotations[constant.MultusCNIAnnotation] = strings.Join(names, ", ")
+			case "ann-json":
+				names := []string{`{"name":"netc"}`, `{"name":"neta","interface":"ifx1"}`, `{"name":"netb"}`}[:pc.NNets]
+				gpod.Annotations[constant.MultusCNIAnnotation] = "[" + strings.Join(names, ",") + "]"
 			}
-		})
-		if out != "ok" {
-			v.violation("cmdadd-"+strings.SplitN(out, ":", 2)[0], "galaxy cmdAdd "+out, line)
-			v.dropState(cid)
-			continue
-		}
-		if rerr != nil || aerr != nil {
-			v.r.Hit("pipe:galaxy-cmdadd-error")
-			v.violation("ipinfo-lost-or-changed:cmdadd-failed", fmt.Sprintf("galaxy cmdAdd failed: %v %v", rerr, aerr), line)
-			v.dropState(cid)
-			continue
-		}
-		for _, ni := range nis {
-			ifNames = append(ifNames, ni.IfName)
-			v.expect("network-args", podLine, "common "+items, ax.MapLine(ni.Args))
-		}
-		v.r.Hit(fmt.Sprintf("pipe:networks=%d", len(nis)))
+			common, err := galaxy.VerifParseExtendedCNIArgs(gpod)
+			if err != nil {
+				v.violation("ipinfo-lost-or-changed:annotation-unreadable", "galaxy cannot read the annotation galaxy-ipam wrote: "+err.Error()+" :: "+annotation, line)
+				continue
+			}
+			cm := map[string]string{}
+			for k, raw := range common {
+				cm[k] = string(raw)
+			}
+			v.expect("common", podLine, "common "+items, ax.MapLine(cm))
 
-		// ---- stage: what each delegate received; plugin-side decode with the plugins' own decoder
-		var pipeOut []string
-		prev := reqArgs
-		for ni, ifn := range ifNames {
-			got, ok := v.recorded(cid, ifn)
-			if !ok {
-				v.violation("ipinfo-lost-or-changed:delegate-not-invoked", fmt.Sprintf("network %d (%s): the delegate was not invoked", ni, ifn), line)
-				pipeOut = nil
-				break
+			// ---- stage: request from kubelet through the real request decoder
+			cid := v.newCID()
+			reqArgs := fmt.Sprintf("IgnoreUnknown=1;K8S_POD_NAMESPACE=%s;K8S_POD_NAME=%s;K8S_POD_INFRA_CONTAINER_ID=%s", pod.Namespace, pod.Name, cid)
+			switch pc.ReqArgs {
+			case "kubelet-ws":
+				reqArgs = fmt.Sprintf("IgnoreUnknown = 1; K8S_POD_NAMESPACE=%s ;K8S_POD_NAME= %s;;K8S_POD_INFRA_CONTAINER_ID=%s;", pod.Namespace, pod.Name, cid)
+			case "with-stale-ipinfos":
+				reqArgs += `;ipinfos=[{"ip":"1.2.3.4/5","vlan":6,"gateway":"7.8.9.10"}]`
 			}
-			es := ax.SortedEntries(nis[ni].Args)
-			order := make([]int, len(es))
-			for j := range order {
-				order[j] = j
+			body, _ := json.Marshal(galaxyapi.CNIRequest{Env: map[string]string{"CNI_COMMAND": "ADD", "CNI_CONTAINERID": cid,
+				"CNI_NETNS": "/proc/self/ns/net", "CNI_IFNAME": "eth0", "CNI_PATH": v.binDir, "CNI_ARGS": reqArgs}, Config: []byte("{}")})
+			req, err := galaxyapi.CniRequestToPodRequest(body)
+			if err != nil {
+				v.r.Hit("pipe:request-rejected")
+				continue
 			}
-			v.expect("acc", podLine, "acc "+ax.H(prev)+" "+ax.PermToken(order)+" "+ax.PairsTokens(es), "ok "+ax.H(got))
-			prev = got
-			var vl []uint16
-			var results []interface{}
-			var derr error
-			out := hx.Guard(30*time.Second, func() {
-				vids, res, err := cniipam.Allocate("", &skel.CmdArgs{Args: got, ContainerID: cid, IfName: ifn})
-				vl, derr = vids, err
-				for _, r := range res {
-					results = append(results, r)
+			var nis []*cniutil.NetworkInfo
+			var rerr, aerr error
+			out = hx.Guard(60*time.Second, func() {
+				nis, rerr = g.VerifResolveNetworks(req, gpod)
+				if rerr == nil {
+					_, aerr = g.VerifCmdAdd(req, gpod)
 				}
 			})
 			if out != "ok" {
-				v.violation("plugin-decode-"+strings.SplitN(out, ":", 2)[0], "cni/ipam.Allocate "+out+" on "+got, line)
-				pipeOut = nil
-				break
-			}
-			var decoded []ax.Rec
-			verdict := ""
-			if derr != nil {
-				verdict = "error"
-				if strings.Contains(derr.Error(), "neither ipInfo from cni args") {
-					verdict = "fallback"
-				} else if strings.Contains(derr.Error(), "empty ipInfos") {
-					verdict = "empty"
-				}
-			} else {
-				for i, r := range results {
-					r20, ok := r.(*t020.Result)
-					if !ok || r20.IP4 == nil {
-						verdict = "error"
-						break
-					}
-					a, ok1 := ax.IPToU32(r20.IP4.IP.IP)
-					gw, ok2 := ax.IPToU32(r20.IP4.Gateway)
-					ones, bits := r20.IP4.IP.Mask.Size()
-					if !ok1 || !ok2 || bits != 32 {
-						verdict = "error"
-						break
-					}
-					decoded = append(decoded, ax.Rec{IP: a, Plen: ones, Vlan: int(vl[i]), GW: gw})
-				}
-				if verdict == "" {
-					verdict = "ok " + ax.Items(decoded)
-				}
-			}
-			v.expect("plugin-decode", podLine, "plugin "+ax.H(got), verdict)
-			pipeOut = append(pipeOut, verdict)
-			v.r.Case(fmt.Sprintf("%s|%d|%s", items, ni, pc.ReqArgs), len(decoded) > 0)
-
-			// ---- MONITOR 1 (the property): what the plugin configures == what IPAM allocated and persisted
-			if f := ax.DiffField(truth, decoded); f != "" {
-				v.violation("ipinfo-lost-or-changed:"+f, fmt.Sprintf("pod %s network %d (%s): allocated %s, plugin decoded %q from CNI_ARGS %q",
-					pod.Name, ni, ifn, ax.Items(truth), verdict, got), line)
+				v.violation("cmdadd-"+strings.SplitN(out, ":", 2)[0], "galaxy cmdAdd "+out, line)
+				v.dropState(cid)
 				continue
 			}
-			// ---- MONITOR 2: the same under the PUBLISHED wire format (separately built / third-party plugins)
-			kv, _ := cniutil.ParseCNIArgs(got)
-			pub, perr := ax.DecodePublished(lastIPInfos(got, kv))
-			if perr != nil {
-				v.violation("ipinfo-lost-or-changed:wire-format", fmt.Sprintf("pod %s network %d: the ipinfos argument does not follow the published format (doc/supported-cnis.md): %v :: %q",
-					pod.Name, ni, perr, got), line)
-			} else if f := ax.DiffField(truth, pub); f != "" {
-				v.violation("ipinfo-lost-or-changed:wire-"+f, fmt.Sprintf("pod %s network %d: allocated %s, published-format reading gives %s from %q",
-					pod.Name, ni, ax.Items(truth), ax.Items(pub), got), line)
+			if rerr != nil || aerr != nil {
+				v.r.Hit("pipe:galaxy-cmdadd-error")
+				v.violation("ipinfo-lost-or-changed:cmdadd-failed", fmt.Sprintf("galaxy cmdAdd failed: %v %v", rerr, aerr), line)
+				v.dropState(cid)
+				continue
 			}
-		}
-		if pipeOut != nil {
-			v.expect("pipeline", podLine, fmt.Sprintf("pipe %s %d %s", ax.H(reqArgs), len(ifNames), items), strings.Join(pipeOut, "|"))
-			if len(v.r.Samples) < 3 {
-				v.r.Sample(map[string]interface{}{"allocated": ax.Items(truth), "annotation": annotation, "networks": len(ifNames),
-					"last_delegate_CNI_ARGS": prev, "plugin_decoded": pipeOut[len(pipeOut)-1]})
+			for _, ni := range nis {
+				ifNames = append(ifNames, ni.IfName)
+				v.expect("network-args", podLine, "common "+items, ax.MapLine(ni.Args))
 			}
+			v.r.Hit(fmt.Sprintf("pipe:networks=%d", len(nis)))
+
+			// ---- stage: what each delegate received; plugin-side decode with the plugins' own decoder
+			var pipeOut []string
+			prev := reqArgs
+			for ni, ifn := range ifNames {
+				got, ok := v.recorded(cid, ifn)
+				if !ok {
+					v.violation("ipinfo-lost-or-changed:delegate-not-invoked", fmt.Sprintf("network %d (%s): the delegate was not invoked", ni, ifn), line)
+					pipeOut = nil
+					break
+				}
+				es := ax.SortedEntries(nis[ni].Args)
+				order := make([]int, len(es))
+				for j := range order {
+					order[j] = j
+				}
+				v.expect("acc", podLine, "acc "+ax.H(prev)+" "+ax.PermToken(order)+" "+ax.PairsTokens(es), "ok "+ax.H(got))
+				prev = got
+				var vl []uint16
+				var results []interface{}
+				var derr error
+				out := hx.Guard(30*time.Second, func() {
+					vids, res, err := cniipam.Allocate("", &skel.CmdArgs{Args: got, ContainerID: cid, IfName: ifn})
+					vl, derr = vids, err
+					for _, r := range res {
+						results = append(results, r)
+					}
+				})
+				if out != "ok" {
+					v.violation("plugin-decode-"+strings.SplitN(out, ":", 2)[0], "cni/ipam.Allocate "+out+" on "+got, line)
+					pipeOut = nil
+					break
+				}
+				var decoded []ax.Rec
+				verdict := ""
+				if derr != nil {
+					verdict = "error"
+					if strings.Contains(derr.Error(), "neither ipInfo from cni args") {
+						verdict = "fallback"
+					} else if strings.Contains(derr.Error(), "empty ipInfos") {
+						verdict = "empty"
+					}
+				} else {
+					for i, r := range results {
+						r20, ok := r.(*t020.Result)
+						if !ok || r20.IP4 == nil {
+							verdict = "error"
+							break
+						}
+						a, ok1 := ax.IPToU32(r20.IP4.IP.IP)
+						gw, ok2 := ax.IPToU32(r20.IP4.Gateway)
+						ones, bits := r20.IP4.IP.Mask.Size()
+						if !ok1 || !ok2 || bits != 32 {
+							verdict = "error"
+							break
+						}
+						decoded = append(decoded, ax.Rec{IP: a, Plen: ones, Vlan: int(vl[i]), GW: gw})
+					}
+					if verdict == "" {
+						verdict = "ok " + ax.Items(decoded)
+					}
+				}
+				v.expect("plugin-decode", podLine, "plugin "+ax.H(got), verdict)
+				pipeOut = append(pipeOut, verdict)
+				v.r.Case(fmt.Sprintf("%s|%d|%s", items, ni, pc.ReqArgs), len(decoded) > 0)
+
+				// ---- MONITOR 1 (the property): what the plugin configures == what IPAM allocated and persisted
+				if f := ax.DiffField(truth, decoded); f != "" {
+					v.violation("ipinfo-lost-or-changed:"+f+sfx, fmt.Sprintf("pod %s network %d (%s): allocated %s, plugin decoded %q from CNI_ARGS %q",
+						pod.Name, ni, ifn, ax.Items(truth), verdict, got), line)
+					continue
+				}
+				// ---- MONITOR 2: the same under the PUBLISHED wire format (separately built / third-party plugins)
+				kv, _ := cniutil.ParseCNIArgs(got)
+				pub, perr := ax.DecodePublished(lastIPInfos(got, kv))
+				if perr != nil {
+					v.violation("ipinfo-lost-or-changed:wire-format", fmt.Sprintf("pod %s network %d: the ipinfos argument does not follow the published format (doc/supported-cnis.md): %v :: %q",
+						pod.Name, ni, perr, got), line)
+				} else if f := ax.DiffField(truth, pub); f != "" {
+					v.violation("ipinfo-lost-or-changed:wire-"+f+sfx, fmt.Sprintf("pod %s network %d: allocated %s, published-format reading gives %s from %q",
+						pod.Name, ni, ax.Items(truth), ax.Items(pub), got), line)
+				}
+			}
+			if pipeOut != nil {
+				v.expect("pipeline", podLine, fmt.Sprintf("pipe %s %d %s", ax.H(reqArgs), len(ifNames), items), strings.Join(pipeOut, "|"))
+				if len(v.r.Samples) < 3 {
+					v.r.Sample(map[string]interface{}{"allocated": ax.Items(truth), "annotation": annotation, "networks": len(ifNames),
+						"last_delegate_CNI_ARGS": prev, "plugin_decoded": pipeOut[len(pipeOut)-1]})
+				}
+			}
+			v.dropState(cid)
 		}
-		v.dropState(cid)
 	}
 }
 
